@@ -203,7 +203,18 @@ def select_kwargs_ok(sk: Func) -> bool:
         conds == [f'{k} in {ks}']
 
 
-def factory_denotation(f: Func, slots: Dict[str, str]) -> Dict[str, Any]:
+class _TupleSub(ast.NodeTransformer):
+    """`(a, b)[0]` -> `a`"""
+
+    def visit_Subscript(self, n: ast.Subscript):
+        self.generic_visit(n)
+        if isinstance(n.value, ast.Tuple) and isinstance(n.slice, ast.Constant) and \
+                isinstance(n.slice.value, int) and -len(n.value.elts) <= n.slice.value < len(n.value.elts):
+            return n.value.elts[n.slice.value]
+        return n
+
+
+def factory_denotation(f: Func, slots: Dict[str, str], index=None) -> Dict[str, Any]:
     """what a `factory(name, **kwargs)` does, independent of how it names intermediate values:
     the order of the pipeline calls, the arguments of the required-key check and the returned
     partial application, locals expanded, comprehension variables and role slots normalised"""
@@ -228,6 +239,13 @@ def factory_denotation(f: Func, slots: Dict[str, str]) -> Dict[str, Any]:
 
     def canon(e: ast.AST) -> str:
         e = copy.deepcopy(e)
+        if index is not None:
+            # methods the registry gained later (`get_nonprotocol_keys`) are read through
+            from ..inline import inline_methods_by_name
+            from ..view import VOCABULARY
+            e = _TupleSub().visit(inline_methods_by_name(index, e, exclude=VOCABULARY,
+                                                         new_only=True))
+            ast.fix_missing_locations(e)
         k = [0]
         for n in ast.walk(e):
             if isinstance(n, (ast.ListComp, ast.SetComp, ast.GeneratorExp, ast.DictComp)):
@@ -378,32 +396,53 @@ def validates_first(index: RepoIndex, f: Func, dp: str) -> Tuple[bool, str]:
     from ..view import view
     node, _w, _inl = view(index, f)
     top = list(node.body)
-    upto = len(top)
-    for i, st in enumerate(top):
-        stores = [n for n in ast.walk(st) if isinstance(n, ast.Name) and n.id == dp
-                  and isinstance(n.ctx, ast.Store)]
-        if stores:
-            if not (isinstance(st, ast.Assign) and len(st.targets) == 1
-                    and isinstance(st.targets[0], ast.Name)):
-                return False, src(st)[:80]
-            upto = i + 1
-            break
+    raw = {dp}            # names that denote the caller's raw input (aliases included)
     n_valid = 0
-    for st in top[:upto]:
+    for st in top:
+        if not raw:
+            break
+        # `alias = <raw>`: binding the input to a helper's parameter reads nothing from it
+        if isinstance(st, ast.Assign) and len(st.targets) == 1 and \
+                isinstance(st.targets[0], ast.Name) and isinstance(st.value, ast.Name) and \
+                st.value.id in raw:
+            raw.add(st.targets[0].id)
+            continue
         valid_args = set()
+        validated_here = None
         for n in ast.walk(st):
-            if isinstance(n, ast.Call) and re.fullmatch(r"schemas\['\w+'\]\.validate",
+            if isinstance(n, ast.Call) and re.fullmatch(r"schemas\[('\w+'|\w+)\]\.validate",
                                                        src(n.func)) and \
                     len(n.args) == 1 and not n.keywords and isinstance(n.args[0], ast.Name) \
-                    and n.args[0].id == dp:
+                    and n.args[0].id in raw:
                 valid_args.add(id(n.args[0]))
                 if isinstance(st, (ast.Assign, ast.AnnAssign, ast.Expr, ast.Return)) and \
                         (st.value is n):
                     n_valid += 1
+                    validated_here = n.args[0].id
+        shadowed = set()          # reads of a lambda / comprehension variable of the same name
+        for lam in ast.walk(st):
+            if isinstance(lam, ast.Lambda):
+                ps_ = {a.arg for a in lam.args.args + lam.args.kwonlyargs}
+                shadowed |= {id(x) for x in ast.walk(lam.body) if isinstance(x, ast.Name)
+                             and x.id in ps_}
+            elif isinstance(lam, (ast.ListComp, ast.SetComp, ast.GeneratorExp, ast.DictComp)):
+                ts_ = {x.id for g in lam.generators for x in ast.walk(g.target)
+                       if isinstance(x, ast.Name)}
+                shadowed |= {id(x) for x in ast.walk(lam) if isinstance(x, ast.Name)
+                             and x.id in ts_}
         for n in ast.walk(st):
-            if isinstance(n, ast.Name) and n.id == dp and isinstance(n.ctx, ast.Load) and \
-                    id(n) not in valid_args:
+            if isinstance(n, ast.Name) and n.id in raw and isinstance(n.ctx, ast.Load) and \
+                    id(n) not in valid_args and id(n) not in shadowed:
                 return False, src(st)[:80]
+        stores = {n.id for n in ast.walk(st) if isinstance(n, ast.Name) and n.id in raw
+                  and isinstance(n.ctx, ast.Store)}
+        if stores:
+            if not (isinstance(st, ast.Assign) and len(st.targets) == 1
+                    and isinstance(st.targets[0], ast.Name)):
+                return False, src(st)[:80]
+            raw -= stores
+        if validated_here is not None and isinstance(st, ast.Return):
+            raw.clear()
     if n_valid < 1:
         return False, 'no unconditional schemas[..].validate(input)'
     return True, 'validate first'
@@ -416,7 +455,7 @@ def factory_rules(index: RepoIndex, rep, rule: str) -> None:
     facts = {r: index.func(ROLE_FILE[r], 'factory') for r in N_PROTOCOL}
     norm = {}
     for r, f in facts.items():
-        norm[r] = factory_denotation(f, {f'{r}_function_registry': 'REGISTRY'})
+        norm[r] = factory_denotation(f, {f'{r}_function_registry': 'REGISTRY'}, index)
     base = norm['reset']
     for r, f in sorted(facts.items()):
         diff = [k for k in base if norm[r][k] != base[k]]
